@@ -17,7 +17,8 @@ pub fn gen_enc(rng: &mut Rng) -> EncVariant {
         14 => EncVariant::TokenPrefix { len: *rng.pick(&[0usize, 1, 8, 16, 31]) },
         15 => EncVariant::TokenExtended { extra: *rng.pick(&[1usize, 16, 32]) },
         6 => EncVariant::WrongToken,
-        7 => EncVariant::StaleToken { token: rng.bytes(32) },
+        // an empty token stands for "the token a previous connection was really issued" (filled in at execution)
+        7 => EncVariant::StaleToken { token: if rng.chance(1, 2) { vec![] } else { rng.bytes(32) } },
         8 => EncVariant::OtherKey,
         9 => EncVariant::Garbage { len: *rng.pick(&[0usize, 1, 127, 128, 129, 1000]) },
         10 => EncVariant::TokenPlain,
@@ -253,8 +254,30 @@ impl Check for C01 {
         if !conn_domain_ok(sc) || !matches!(sc.client.intent, 1..=3) || sc.client.script.is_some() || !sc.client.mutations.is_empty() || !transport_is_zero_time(sc) {
             return RunReport::default();
         }
+        // a really stale token: run a donor connection first (same process and thread, so anything the
+        // code under test keeps between connections is kept) and present the token it was issued
+        let mut with_donor = None;
+        if let EncVariant::StaleToken { token } = &sc.client.enc
+            && token.is_empty()
+        {
+            let mut donor = sc.clone();
+            donor.client.enc = EncVariant::Honest;
+            donor.seed ^= 0x5a5a_0001;
+            donor.client.rng ^= 1;
+            let d = run_conn(&donor);
+            let tok = d.view.verify_token.as_deref().map(unhex).unwrap_or_else(|| vec![0u8; 32]);
+            let mut s2 = sc.clone();
+            s2.client.enc = EncVariant::StaleToken { token: tok };
+            with_donor = Some(s2);
+        }
+        let donor_used = with_donor.is_some();
+        let sc = with_donor.as_ref().unwrap_or(sc);
         let out = run_conn(sc);
         let mut rep = base_report(&out);
+        if donor_used {
+            rep.runs = 2;
+            *rep.faults.entry("token_of_a_previous_connection_replayed".into()).or_insert(0) += 1;
+        }
         rep.nontrivial = sc.client.intent != 1
             && out.view.first("EncryptionRequest").is_some()
             && (!matches!(sc.client.enc, EncVariant::Honest)
